@@ -27,6 +27,7 @@ VERDICTS = {
     'C02': {'overlap'},
     'C03': {'fin-twice', 'fin-missing', 'raise-early'},
     'C06': {'delivered-after-close', 'isclosed-false', 'wait-early', 'wait-hang'},
+    'C07': {'terminal-lost'},
 }
 ALWAYS = {'harness-timeout', 'harness-panic'}
 
